@@ -189,17 +189,20 @@ impl Scenario for Repartition {
         "c10-repartition"
     }
     fn generate(&self, rng: &mut Rng, tier: Tier) -> Value {
-        let preserve = rng.chance(1, 4);
+        let preserve = rng.chance(1, 3);
         let big = tier == Tier::Thorough;
         let tg = TableGen {
             parts: (1, 4),
             batches: (0, if big { 8 } else { 6 }),
             rows: (0, if big { 32 } else { 12 }),
             sorted_by_k: preserve,
+            // a third of the cases are rich in zero-row batches (they take the same send / spill /
+            // marker paths as any other batch)
+            empty_pct: *rng.pick(&[0u64, 0, 30]),
             ..Default::default()
         };
         let table = tg.generate(rng);
-        let mode = *rng.pick(&["hash", "hash", "rr", "range", "range"]);
+        let mode = *rng.pick(&["hash", "hash", "rr", "rr", "range", "range"]);
         let keys: Vec<&str> = match rng.below(4) {
             0 => vec!["k"],
             1 => vec!["s"],
@@ -473,7 +476,7 @@ pub fn check() -> Check {
         property: "C10",
         level: "exploration",
         scenarios: vec![Box::new(Repartition)],
-        cases_quick: 30_000,
+        cases_quick: 40_000,
         cases_thorough: 600_000,
         rule: "runs: seeded cases (1-4 scripted input partitions x 0-8 batches x 0-32 rows with NULLs and duplicate keys, Pending/virtual delays between batches; round-robin, hash on 1-3 keys into 1-8 outputs, or range on 1-3 keys (ASC/DESC, NULLS FIRST/LAST) with 0-7 split points incl. NULL split values and rows equal to a split point, routing compared with the documented split-point rule and with RangeExpr::evaluate; preserve_order over sorted inputs; batch_size 1-64; pool from ample to refusing most growth + noisy neighbour, forcing spilled batches; tiny spill-file rotation; SimDisk read chunking; some outputs dropped after k batches), each under one seeded scheduler policy. distinct = distinct poll-order traces; non-trivial = >= 2 tasks runnable at some decision or a fault/refusal fired",
         assumptions: vec![
